@@ -164,4 +164,51 @@ def seekAsWritten (c : Cfg) (wavex : Bool) (blocks : Nat) (file : List Byte) (cu
       ({ s1 with samplecount := newsample }, some (newblock * c.spb + newsample))
     else (s, some (newblock * c.spb + newsample))
 
+
+/-! ## a read handle in the C's own terms (blockcount / samplecount / file position), for the direct-call stream -/
+
+/-- `gsm610_read_block` as written, on the codec's own counters: (state, the `len` cells of the caller's buffer, total) -/
+def readBlockC (c : Cfg) (blocks : Nat) (file : List Byte) : Nat → SeekSt → Nat → SeekSt × List Int × Nat
+  | 0, s, n => (s, zeros n, 0)
+  | fuel + 1, s, n =>
+    if n = 0 then (s, [], 0)
+    else if s.blockcount ≥ blocks ∧ s.samplecount ≥ c.spb then (s, zeros n, 0)
+    else
+      let s1 := if s.samplecount ≥ c.spb then decodeAt c blocks file s else s
+      let count := min (c.spb - s1.samplecount) n
+      let piece := (s1.d.samples.drop s1.samplecount).take count
+      let (s3, d, t) := readBlockC c blocks file fuel { s1 with samplecount := s1.samplecount + count } (n - count)
+      (s3, piece ++ d, count + t)
+
+structure CHandle where
+  c      : Cfg
+  wavex  : Bool
+  file   : List Byte
+  blocks : Nat
+  s      : SeekSt
+  cur    : Nat         -- psf->read_current
+  frames : Nat         -- psf->sf.frames
+
+/-- `gsm610_init` (SFM_READ): "Read first block." -/
+def CHandle.open (c : Cfg) (wavex : Bool) (file : List Byte) (dlen : Nat) (hdr : Option Nat) : CHandle :=
+  let blocks := blocksOf c dlen
+  { c := c, wavex := wavex, file := file, blocks := blocks,
+    s := decodeAt c blocks file { d := DSt.init c, blockcount := 0, samplecount := 0, filepos := 0 },
+    cur := 0, frames := framesAtOpen c dlen hdr }
+
+/-- `sf_read_short (…, n)` -/
+def CHandle.readS (h : CHandle) (n : Nat) : CHandle × List Int × Nat :=
+  if n = 0 then (h, [], 0)
+  else if h.cur ≥ h.frames then (h, zeros n, 0)
+  else
+    let (s, d, count) := readBlockC h.c h.blocks h.file (n + 1) h.s n
+    if h.cur + count ≤ h.frames then ({ h with s := s, cur := h.cur + count }, d, count)
+    else ({ h with s := s, cur := h.frames }, d.take (h.frames - h.cur) ++ zeros (n - (h.frames - h.cur)), h.frames - h.cur)
+
+/-- `psf->seek (psf, SFM_READ, offset)` called directly, `read_current` updated on success as sf_seek would -/
+def CHandle.cseek (h : CHandle) (offset : Int) : CHandle × Int :=
+  match seekAsWritten h.c h.wavex h.blocks h.file h.cur h.s offset with
+  | (s, some r) => ({ h with s := s, cur := r }, (r : Int))
+  | (s, none) => ({ h with s := s }, -1)
+
 end Sf.Gsm
